@@ -290,6 +290,54 @@ def stub (beh : Beh) (fmt : List Char) (outName : Name) : Converter := fun fs in
           (res ++ [['s', 'u', 'b']]) .dir) (res ++ [['s', 'u', 'b'], ['s', '.', 't', 'x', 't']]) (.file ['n', 'e', 's', 't', 'e', 'd']))
   | _ => (.error .os, fs)   -- "Input file not found"
 
+/-! ## file names as data
+
+The names of the intermediate files are *derived* from the target's file name, in two steps done by two
+different parties:
+
+* the export writes the RTF to `<tmpA>/<target_path.stem>.rtf` (`rtfNameOf`);
+* the converter names its output after **its input**: `output_dir / f"{input_file.stem}.{format}"`
+  (`LibreOfficeConverter._convert_single_file`, LibreOffice itself, the harness stubs) — `convName` — and the
+  HTML resource folder after that output: `<converted name>_files` (`resourcesOf`).
+
+So the resource folder's name is a function of the *converted* file's name, never of the target's name:
+for the target `report.htm` it is `report.html_files` (not `report.htm_files`), and it is placed next to the
+target under that same name (`resDst`), which is what the relative links inside the HTML refer to.
+
+`stem` is `pathlib.PurePath.stem` (CPython 3.12): the suffix starts at the last `'.'` of the name, provided
+that dot is neither the first nor the last character; otherwise there is no suffix.
+-/
+
+/-- split at the last `'.'`: `splitLastDot (a ++ '.' :: b) = some (a, b)` when `b` has no dot -/
+def splitLastDot : Name → Option (Name × Name)
+  | [] => none
+  | c :: r =>
+    match splitLastDot r with
+    | some (a, b) => some (c :: a, b)
+    | none => if c = '.' then some ([], r) else none
+
+/-- `PurePath(name).stem` -/
+def stem (n : Name) : Name :=
+  match splitLastDot n with
+  | some (a, b) => if a ≠ [] ∧ b ≠ [] then a else n
+  | none => n
+
+/-- the literal `.rtf` -/
+def rtfSuffix : Name := ['.', 'r', 't', 'f']
+
+/-- `f"{target_path.stem}.rtf"` -/
+def rtfNameOf (tname : Name) : Name := stem tname ++ rtfSuffix
+
+/-- `f"{input_file.stem}.{format}"`: how a converter names its output -/
+def convName (fmt : List Char) (inp : Path) : Name := stem (inp.getLast?.getD []) ++ '.' :: fmt
+
+/-- the harness stub as it really is: the output name is computed from the input path -/
+def stubN (beh : Beh) (fmt : List Char) : Converter := fun fs inp out =>
+  stub beh fmt (convName fmt inp) fs inp out
+
+/-- the parameters of a call whose intermediate RTF is named as the code names it -/
+def Params.Named (P : Params) : Prop := P.rtfName = rtfNameOf P.tname
+
 /-! ## well-formedness (separate invariant) -/
 
 def keys (fs : Fs) : List Path := fs.map (·.1)
